@@ -72,7 +72,7 @@ static CS101_IFileProvider fa_get(void* p, int ca, int ioa, uint16_t nof, int* e
     else if (ioa != F.ioa) *err = 2;
     else if (nof != F.nof) *err = 0;
     else r = &provider;
-    printf("cb getfile ca=%d ioa=%d nof=%d -> %s%d\n", ca, ioa, nof, r ? "found " : "err=", r ? 0 : *err);
+    printf("cb getfile ca=%d ioa=%d nof=%d -> %d\n", ca, ioa, nof, r ? -1 : *err);
     return r;
 }
 static struct sCS101_FilesAvailable files = { fa_next, fa_get, NULL };
